@@ -228,8 +228,8 @@ class SymKernel(BaseKernel):
             # code wrote into dx) is left alone
             if len(terms) == 1 and len(terms[0][0]) == 1 and terms[0][0][0][1] == 1 and terms[0][1] == 1:
                 sub[terms[0][0][0][0]] = 0
-        code0 = [P.nf(p.subs(sub)) for p in code]
-        spec0 = [P.nf(p.subs(sub)) for p in spec]
+        code0 = [P.nf(p.drop_vars(sub.keys())) for p in code]
+        spec0 = [P.nf(p.drop_vars(sub.keys())) for p in spec]
         code0nz = [p for p in code0 if not p.is_zero()]
         spec0nz = [p for p in spec0 if not p.is_zero()]
         for i, p in enumerate(spec0):
@@ -352,6 +352,11 @@ def linear_membership(st, target, gens, points=3, seed=1, multipliers=None):
         return True
     if not gens:
         return False
+    # fast path: the target IS one of the generators (the usual case: the code's row and the spec's row are the same polynomial)
+    tk = target.key()
+    for g in gens:
+        if len(g.t) == len(target.t) and g.key() == tk:
+            return True
     # solve  sum c_i g_i = target  coefficient-wise: exact SPARSE elimination over Q (unknowns = generators, one
     # equation per monomial)
     rows = {}
